@@ -303,9 +303,10 @@ def judge_fault_case(scn: Scenario, out, st, lazy, out0):
     for (n, kind, site, exc_obj), role in zip(st.fired, roles):
         if role not in ("check", "groupby"):
             continue
-        if scn.nrows == 0 and scn.site_kind.get(site) in world.ELEMENTWISE:
+        if n in st.trial_calls:
             scn.bump("probe.elementwise_trial_call_on_empty_frame_swallowed_by_pandas")
-            continue        # pandas' DataFrame.apply on an empty frame makes a trial call and discards its exception itself
+            continue        # pandas' DataFrame.apply on an empty frame (no rows, or no columns left after strict='filter') makes a
+            #                 trial call and discards its exception itself (detected from the call stack at the moment of the raise)
         if e is None:
             if kind in ("SchemaError", "SchemaErrors") and _uses_drop(scn.spec) and scn.backend == "pandas":
                 continue    # a nested SchemaError carries row-level failure cases: reported as a failed check = rows dropped
